@@ -61,6 +61,8 @@ CFG = {
     "1-ren-leftkey": (1, [["k", "rk"]], ["rk"], "k", False),
     # right items that hold nothing but the join key(s): a match that merges nothing is still a match
     "1-same-bare": (1, ["k"], ["k"], None, False),
+    # the payload of every other right item is None: an entry holding None is an entry (it is merged like any other)
+    "1-same-nonepayload": (1, ["k"], ["k"], "p?", True),
     "1-ren-bare": (1, [["k", "rk"]], ["rk"], None, False),
     "2-same": (2, ["k", "k2"], ["k", "k2"], "p", True),
     "2-same-clash": (2, ["k", "k2"], ["k", "k2"], "id", True),
@@ -141,7 +143,10 @@ def left_item(nk, combo, i):
 
 def right_item(rnames, pkey, combo, j):
     item = {name: v for name, v in zip(rnames, combo)}
-    if pkey is not None:
+    if pkey is not None and pkey.endswith("?"):
+        item[pkey[:-1]] = None if j % 2 == 0 else f"R{j}"
+        item["rid"] = j
+    elif pkey is not None:
         item[pkey] = f"R{j}"
     return item
 
